@@ -12,7 +12,7 @@ from .common import *
 from .quantity_ops import qty_arg
 
 K = "quantity:"
-N_MAX = 1
+N_MAX = int(__import__('os').environ.get('PYVC_ALLOC_NMAX', '1'))
 HALF_MODES = ("ROUND_HALF_UP", "ROUND_HALF_DOWN", "ROUND_HALF_EVEN")
 
 
@@ -65,7 +65,12 @@ def allocate_spec(ctx: Ctx):
         z3.Implies(mr * qu > -n * qu, m > -n),
         (mr * qu > 0) == (m > 0), (mr * qu < 0) == (m < 0),
         (mr * qu == 0) == (m == 0),
-        *[(mr * qu - j * qu == 0) == (m == j) for j in range(-n, n + 1)])),
+        *[(mr * qu - j * qu == 0) == (m == j) for j in range(-n, n + 1)],
+        # the remainder after moving j quanta is the multiple (m - j) of the
+        # quantum: definitional instances of the ghost witness grid_k
+        *[z3.And(grid_k(mr * qu - j * qu, qu) == m - j,
+                 z3.ToReal(m - j) * qu == mr * qu - j * qu)
+          for j in range(-n, n + 1)])),
         "A3: distributivity / cancellation instances (g - sum k_i)*q and "
         "M*q < n*q <=> M < n for q > 0 (lemma allocate/quanta)")
 
